@@ -55,6 +55,10 @@ CLAIMED = {
    text="Necessary structural conditions, decided for all 377 lints, their helpers and the framework: interprocedural MOD summaries over SSA + VTA call graph (10.8k functions) show no lint method or entry point writes a module-level variable or memory reachable from the linted object (zcrypto's own unexported memo fields excepted); every constructor allocates a fresh instance; every range over a map reachable from a lint is order-insensitive by a recognised form, else reported (two genuine order-dependent loops of multiPurpose are listed as known findings); every use of an I/O / clock / randomness / goroutine API in lint, util and framework packages is in a seven-entry who-may-use table, and imports/modules outside the reviewed list are flagged. Value-level determinism of the trusted libraries and writes through reflect/unsafe are not decided.",
    note=TRUST+"Aliasing approximated by SSA address roots + callee MOD summaries (no pointer analysis available); assembly callees by a reviewed table (unknown ones are assumed to write their pointer arguments).",
    technique="interprocedural effect (MOD) analysis over go/ssa with VTA call graph; loop-form classification of map ranges; who-may-use API policy over types.Info.Uses", ref="§3 C05"),
+ "C08": dict(level="other",
+   text="The decision table of Registry.Filter for one loop iteration (closures inlined, induction over r.Names() with only the index carried) is compared with the documented selection predicate on lint kind × five filters × {absent, matching, not matching} × registration outcome (2 916 abstract cases): registered iff not excluded/included by source and name and matching the pattern, keyed by the lint's own Source and name, the very object returned by the kind's lookup registered with the kind's own method on the new registry, which always inherits the configuration; validation and registration errors are returned with a nil registry, pattern + name lists rejected, empty options return the receiver; tables of Empty (plus a field census so a new option cannot be forgotten), lintNamesToMap (trim, three lookups, unknown ⇒ error), sourceListToMap and AddProfile; MOD(Filter, receiver) = ∅ from the effect analysis. Regular-expression semantics and SourceList parsing are outside the claim.",
+   note=TRUST+"Every registered name of every kind appears in r.Names() (C12's names-merge rule).",
+   technique="decision-table extraction over go/ssa with bounded unrolling + induction side condition; effect (MOD) analysis", ref="§3 C08"),
 }
 
 NOT_YET = "check not built yet in this session (see DESIGN.md §3 for the planned static rule)"
